@@ -349,12 +349,22 @@ def run_history(con, hist, need, dem0):
     return out
 
 
+OPS_D = ["first", "seq", "rest", "next", "count", "nth1", "iter", "head"]
+TYS_D = ["nil", "int", "cell", "seq", "empty", "stop", "exc", "none"]
+
+
+def decode_history(codes):
+    """LazySeqDemand!Code: op * 100000 + result type * 10000 + result.i * 100 + dem"""
+    return [{"op": OPS_D[c // 100000], "res": {"ty": TYS_D[c // 10000 % 10], "i": c // 100 % 100}, "dem": c % 100}
+            for c in codes]
+
+
 def demand_worker(arg):
     con, hists, need, dem0 = arg
     bad = []
     n = 0
-    for hi, hist in hists:
-        res = run_history(con, hist, need, dem0)
+    for hi, codes in hists:
+        res = run_history(con, decode_history(codes), need, dem0)
         n += 1
         for (clause, i, exp, obs, sig) in res:
             bad.append((con, hi, clause, i, exp, obs, sig))
@@ -371,13 +381,15 @@ def demand_part(chk, pool):
     tabs = {t["con"]: t for t in r.tagged("TAB")}
     by_mode = collections.defaultdict(dict)
     for b in r.tagged("BEH"):
-        by_mode[b["mode"]][json.dumps(b["hist"], sort_keys=True)] = b["hist"]
+        by_mode[b["m"]][tuple(b["h"])] = None
+    for m in by_mode:
+        by_mode[m] = sorted(by_mode[m])        # histories stay encoded (tuples of ints) until they are executed
     cons = ["lazy", "map", "filter", "concat", "take", "drop", "iterate", "iterate-bool", "iterate-nil",
             "pyseq", "pyseq1", "pyiter"]
     jobs = []
     for con in cons:
         t = tabs[TABLE_OF.get(con, con)]
-        hs = list(enumerate(by_mode[t["mode"]].values()))
+        hs = list(enumerate(by_mode[t["mode"]]))
         per = max(1, (len(hs) + 15) // 16)
         for off in range(0, len(hs), per):
             jobs.append((con, hs[off:off + per], t["need"], t["dem0"]))
@@ -389,7 +401,7 @@ def demand_part(chk, pool):
             nbad[sig] += 1
             if nbad[sig] <= 3:
                 t = tabs[TABLE_OF.get(c, c)]
-                hist = list(by_mode[t["mode"]].values())[hi]
+                hist = decode_history(by_mode[t["mode"]][hi])
                 if clause == "LazySeqDemand!NeedTooHigh":
                     chk.machinery("demand table over-demands: %s step %d of %s: %s vs %s" % (c, i, hist, exp, obs))
                 else:
@@ -401,11 +413,9 @@ def demand_part(chk, pool):
     chk.extra["demand_executions"] = total
     chk.extra["demand_discrepancies_by_sig"] = dict(nbad)
     for m, v in by_mode.items():
-        for h in v.values():
-            if len({s["op"] for s in h}) >= 3 and h[-1]["dem"] >= 2:
-                chk.nontriv(n=1)
+        chk.nontriv(n=sum(1 for h in v if len({c // 100000 for c in h}) >= 3 and h[-1] % 100 >= 2))
     if by_mode.get("L3"):
-        chk.sample({"demand_history": list(by_mode["L3"].values())[len(by_mode["L3"]) // 2], "table_map": tabs["map"]["need"]})
+        chk.sample({"demand_history": decode_history(by_mode["L3"][len(by_mode["L3"]) // 2]), "table_map": tabs["map"]["need"]})
 
 
 # =================================================================================================
@@ -496,6 +506,7 @@ class Slot(threading.Thread):
         cpu0 = None
         t_prev = time.monotonic()
         t_start = t_prev
+        t_last = t_prev
         outcome = None
         try:
             while outcome is None:
@@ -508,7 +519,7 @@ class Slot(threading.Thread):
                     if not chunk:
                         outcome = "eof"
                         break
-                    silent, cpu0 = 0.0, None
+                    silent, cpu0, t_last = 0.0, None, now
                     buf += chunk
                     *lines, buf = buf.split(b"\n")
                     for ln in lines:
@@ -537,15 +548,16 @@ class Slot(threading.Thread):
                         raise Machine("child did not start within %ds: %s" % (STARTUP, open(errp).read()[-800:]))
                     silent = 0.0
                     continue
-                if silent >= SILENCE:
-                    c = _cpu_seconds(p.pid)
+                if silent >= SILENCE - 3.0:
+                    # the last three seconds before the deadline: watch CPU use and thread states from outside
                     if cpu0 is None:
-                        cpu0 = (c, now)
-                        silent = SILENCE - 3.0        # observe for three more seconds
-                        continue
-                    used = c - cpu0[0]
-                    if used > 0.5 * (now - cpu0[1]) and now - t_start < BUSY_CAP:
-                        silent, cpu0 = 0.0, None      # silent but computing: not a frozen interpreter
+                        cpu0 = (_cpu_seconds(p.pid), now, [])
+                    cpu0[2].append(_any_runnable(p.pid))
+                if silent >= SILENCE:
+                    used = _cpu_seconds(p.pid) - cpu0[0]
+                    starving = sum(cpu0[2]) * 4 >= len(cpu0[2])     # a thread wants the CPU in >= 1/4 of the samples
+                    if (used > 0.5 * (now - cpu0[1]) or starving) and now - t_last < BUSY_CAP:
+                        silent, cpu0 = 0.0, None      # silent but computing / waiting for a CPU: not a frozen interpreter
                         continue
                     outcome = "frozen"
         finally:
@@ -593,6 +605,18 @@ def _cpu_seconds(pid):
         return (int(rest[11]) + int(rest[12])) / os.sysconf("SC_CLK_TCK")
     except Exception:  # noqa
         return 0.0
+
+
+def _any_runnable(pid):
+    """is some thread of the process runnable or in uninterruptible sleep right now?"""
+    try:
+        for tid in os.listdir("/proc/%d/task" % pid):
+            f = open("/proc/%d/task/%s/stat" % (pid, tid)).read()
+            if f[f.rindex(")") + 2] in "RD":
+                return True
+    except Exception:  # noqa
+        pass
+    return False
 
 
 def run_children(scs, max_hangs, nslots=16, per_batch=40):
@@ -782,14 +806,15 @@ def run(chk):
     t2 = time.time()
     for i, s in enumerate(scs):
         s["id"] = i + 1
-    if chk.tier == "quick" and len(scs) > 2600:
+    cap = 2600 if chk.tier == "quick" else 40000
+    chk.extra["scenarios_generated"] = len(scs)
+    if len(scs) > cap:
         import random
         rnd = random.Random(chk.seed)
         single = [s for s in scs if len(s["progs"]) == 1]
         multi = [s for s in scs if len(s["progs"]) > 1]
         rnd.shuffle(multi)
-        chk.extra["scenarios_generated"] = len(scs)
-        scs = sorted(single + multi[:2600 - len(single)], key=lambda s: s["id"])
+        scs = sorted(single + multi[:cap - len(single)], key=lambda s: s["id"])
     mt_part(chk, scs)
     t3 = time.time()
     account_design(chk, [f.result() for f in design])
@@ -799,7 +824,7 @@ def run(chk):
     chk.exhaustive = {"design": "all reachable states of the listed configurations",
                       "demand_histories": "all of length %d over 8 operations" % (4 if chk.tier == "quick" else 6),
                       "scenarios": "all distinct (programs, plans, decisions) of the generation configurations"
-                                   + (" (quick: seeded sample of 2600 when more)" if chk.tier == "quick" else "")}
+                                   + " (seeded sample of %d when more)" % cap}
 
 
 def replay(chk, body):
@@ -824,3 +849,66 @@ def replay(chk, body):
         print("status:", r["status"])
         for e in r["ev"]:
             print("  ", json.dumps(e))
+
+
+# =================================================================================================
+# self-test of the binding (never part of the verdict on basilisp): hand-written traces, some of them corrupted
+# =================================================================================================
+def selftest(chk):
+    def I(i):
+        return {"ty": "int", "i": i}
+    exc = {"ty": "exc", "i": 0}
+
+    def ev(k, t, op="-", c=0, ok=True, res=NIL):
+        return {"k": k, "t": t, "op": op, "c": c, "ok": ok, "res": res}
+    T = {
+        1: [ev("call", 1, "first", 1), ev("pstart", 1, c=1), ev("pend", 1, c=1), ev("ret", 1, res=I(1))],
+        # producer throws, second access silently nil (what the pinned tree does)
+        2: [ev("call", 1, "first", 1), ev("pstart", 1, c=1), ev("pend", 1, c=1, ok=False), ev("ret", 1, res=exc),
+            ev("call", 1, "first", 1), ev("ret", 1, res=NIL)],
+        # producer throws, second access runs it again
+        3: [ev("call", 1, "first", 1), ev("pstart", 1, c=1), ev("pend", 1, c=1, ok=False), ev("ret", 1, res=exc),
+            ev("call", 1, "first", 1), ev("pstart", 1, c=1), ev("pend", 1, c=1), ev("ret", 1, res=I(1))],
+        # frozen: second thread asks while the producer is parked
+        4: [ev("call", 1, "first", 1), ev("pstart", 1, c=1), ev("park", 1), ev("call", 2, "first", 1)],
+        5: [ev("call", 1, "first", 1), ev("pstart", 1, c=1), ev("park", 1), ev("call", 2, "first", 1), ev("resume", 1),
+            ev("pend", 1, c=1), ev("ret", 1, res=I(1)), ev("ret", 2, res=I(1))],
+        # re-entrant access from inside the producer sees nil
+        6: [ev("call", 1, "first", 1), ev("pstart", 1, c=1), ev("call", 1, "first", 1), ev("ret", 1, res=NIL),
+            ev("pend", 1, c=1), ev("ret", 1, res=I(1))],
+        # corrupted: the producer runs twice
+        7: [ev("call", 1, "first", 1), ev("pstart", 1, c=1), ev("park", 1), ev("call", 2, "first", 1), ev("resume", 1),
+            ev("pend", 1, c=1), ev("ret", 1, res=I(1)), ev("pstart", 2, c=1), ev("pend", 2, c=1), ev("ret", 2, res=I(1))],
+        8: [ev("call", 1, "count", 1), ev("pstart", 1, c=1), ev("pend", 1, c=1), ev("pstart", 1, c=2), ev("pend", 1, c=2),
+            ev("ret", 1, res=I(1)), ev("call", 2, "next", 1), ev("ret", 2, res=NIL)],
+        # corrupted: first realizes the second cell too (beyond demand)
+        9: [ev("call", 1, "first", 1), ev("pstart", 1, c=1), ev("pend", 1, c=1), ev("pstart", 1, c=2), ev("pend", 1, c=2),
+            ev("ret", 1, res=I(1))],
+        # corrupted: another element is returned to the second consumer
+        10: [ev("call", 1, "first", 1), ev("pstart", 1, c=1), ev("pend", 1, c=1), ev("ret", 1, res=I(1)),
+             ev("call", 2, "first", 1), ev("ret", 2, res=I(2))],
+    }
+
+    def mk(dl, de):
+        return [{"id": i, "n": 2, "devlock": dl, "deverr": de, "hang": i == 4, "ev": e} for i, e in sorted(T.items())]
+    p = tlc.write_json("c06_selftest", mk(False, False))
+    r = run_tlc("LazySeq_Trace", "LazySeq_Trace.cfg", env={"TRACE_FILE": p})
+    got = sorted(set(r.tagged("ACC")))
+    ok = got == [1, 3, 5, 6, 8]
+    print("LazySeq_Trace accepts", got, "expected [1, 3, 5, 6, 8]")
+    want = {(False, False): ([1, 3, 5, 6, 8], []), (True, False): ([1, 3, 5, 6, 8], [4]),
+            (False, True): ([1, 2, 5, 6, 8], []), (True, True): ([1, 2, 5, 6, 8], [4])}
+    for (dl, de), (wacc, whng) in want.items():
+        p = tlc.write_json("c06_selftest", mk(dl, de))
+        r = run_tlc("LazySeqImpl_Trace", "LazySeqImpl_Trace.cfg", env={"TRACE_FILE": p})
+        a, h = sorted(set(r.tagged("ACC"))), sorted(set(r.tagged("HNG")))
+        print("LazySeqImpl_Trace lock=%s err=%s accepts %s freezes %s" % (dl, de, a, h))
+        ok = ok and a == wacc and h == whng
+    # a correct construct judged with a table that is off by one must be reported
+    D = demand_env()
+    need = {str(d): {"src": max(0, d - 1)} for d in range(0, 6)}
+    res = run_history("lazy", [{"op": "first", "res": I(1), "dem": 1}], need, 0)
+    print("demand replay with a table that is one too low:", res)
+    ok = ok and len(res) == 1 and res[0][4] == "demand:lazy:src:+1"
+    print("selftest", "passed" if ok else "FAILED")
+    return 0 if ok else 2
